@@ -285,6 +285,54 @@ func (c *Ctx) a3Loop(l *mapLoop) []a3Finding {
 			}
 		}
 	}
+	// (5) early non-failing exit from a loop that accumulates: which elements were processed depends on the order
+	accumulates := false
+	for b := range l.body {
+		for _, in := range b.Instrs {
+			switch x := in.(type) {
+			case *ssa.MapUpdate:
+				if resolve(x.Map, x) != resolve(l.rng.X, l.rng) {
+					accumulates = true
+				}
+			case ssa.CallInstruction:
+				n := calleeName(x)
+				if n == "(in_toto.Set).Add" || n == "builtin:append" {
+					accumulates = true
+				}
+			}
+		}
+	}
+	if accumulates {
+		for b := range l.body {
+			if b == l.header {
+				continue
+			}
+			for _, s := range b.Succs {
+				if l.body[s] {
+					continue
+				}
+				// leaving the loop before exhaustion; fine if that path inevitably fails (error return)
+				if c.failing(s) {
+					continue
+				}
+				// degenerate single-iteration picks are reported by (2)
+				carried := false
+				for _, in := range s.Instrs {
+					if ph, ok := in.(*ssa.Phi); ok {
+						for i, pb := range s.Preds {
+							if pb == b && l.fromIter(ph.Edges[i]) {
+								carried = true
+							}
+						}
+					}
+				}
+				if carried {
+					continue
+				}
+				out = append(out, a3Finding{"A3.5", "early exit from an accumulating loop", "the loop over a Go map stores/collects per element and can be left before all elements were visited without failing: which elements are processed depends on the iteration order", b.Instrs[len(b.Instrs)-1], "bad"})
+			}
+		}
+	}
 	// (4) writes to the ranged map that may add keys
 	for b := range l.body {
 		for _, in := range b.Instrs {
